@@ -11,6 +11,7 @@ mod model;
 mod props;
 mod rng;
 mod surface;
+mod zoo;
 
 use case::Tier;
 
